@@ -70,7 +70,9 @@ def run_property(pid, spec, tier, seed, deadline=None):
     violations, known_hits, lines = [], {}, []
     try:
         # build everything first (parallel builds happen inside build.lib)
-        exes = [r.build() for r in runs]
+        from concurrent.futures import ThreadPoolExecutor
+        with ThreadPoolExecutor(4) as ex:
+            exes = list(ex.map(lambda r: r.build(), runs))
         for i, (r, exe) in enumerate(zip(runs, exes)):
             remaining = total_deadline - (time.time() - t0)
             if remaining < 5:
@@ -115,6 +117,13 @@ def run_property(pid, spec, tier, seed, deadline=None):
             violations.append(dict(sig=f["sig"], clause=f["clause"], id=f["id"], msg=f["msg"], count=v["count"], replay=path))
             lines.append("VIOLATION property=%s replay=%s" % (pid, path))
             lines.append("  # %s | %s | %s : %s (x%d)" % (f["sig"], f["clause"], f["id"], f["msg"], v["count"]))
+        for xf in (spec["cross_check"](results) if spec.get("cross_check") else []):
+            n = len(violations)
+            path = os.path.join(VERIF, "out", "replay", "%s-%d.json" % (pid, n))
+            json.dump(dict(property=pid, tier=tier, seed=seed, cross_run=xf, replay_cmd="bin/check %s --tier %s" % (pid, tier)), open(path, "w"), indent=1)
+            violations.append(dict(sig=xf["sig"], clause=xf["clause"], id=xf["id"], msg=xf["msg"], count=1, replay=path))
+            lines.append("VIOLATION property=%s replay=%s" % (pid, path))
+            lines.append("  # %s | %s | %s : %s" % (xf["sig"], xf["clause"], xf["id"], xf["msg"]))
         for kid, kh in known_hits.items():
             lines.append("KNOWN-FINDING: property=%s %s [%s] (re-observed %d times, e.g. %s)" % (pid, kh["entry"].get("what", kid), kid, kh["count"], kh["first"]["id"]))
     finally:
